@@ -5,6 +5,7 @@
 -/
 import Fx.Eval
 import Fx.Lemmas.Enc
+import Fx.Lemmas.Consumed
 namespace Fx.C02
 open Fx
 
@@ -26,5 +27,38 @@ theorem C02_leaf_sizes (bs : List Byte) :
     (XVal.varOpaque bs).enc.length = 4 + bs.length + padLen bs.length ∧
     (XVal.fixedOpaque bs).enc.length = bs.length + padLen bs.length := by
   simp [XVal.enc]; omega
+
+/-- **The decoder consumes exactly the `wire_size()` of what it returns — for ALL byte strings, valid or not.**
+    Hypothesis: `Plans.SizeExact'` (decidable, evaluated by the driver for every compiled specification): every emitted
+    size impl matches its decoder (false exactly where a bracket-less `opaque` field or an `opaque` union arm occurs —
+    finding K1) and union discriminants are one word.  Then every successful decode leaves the cursor advanced by
+    `wire_size(v)` bytes, a whole number of words, with the remaining bytes untouched. -/
+theorem C02_consumed_all (a : Ast) (p : Plans) (hp : p.SizeExact' = true) (fuel : Nat) (name : String)
+    (c : Cur) (v : Val) (c' : Cur) (h : evalImpl a p fuel name c = .ok v c') :
+    wsVal p v ≤ c.remaining ∧ c'.off = c.off + wsVal p v ∧ c'.data = c.data.drop (wsVal p v) ∧ wsVal p v % 4 = 0 :=
+  (eval_consumed a p hp fuel).1 name c v c' h
+
+/-- in particular the element stepping of `read_variable_array` (advance by `wire_size()` of the element decoded from a
+    clone) lands exactly where the element's own decoder stopped -/
+theorem C02_array_stepping_exact (a : Ast) (p : Plans) (hp : p.SizeExact' = true) (fuel : Nat) (ty : String) (m : Option Nat)
+    (c : Cur) (v : Val) (c' : Cur) (h : readVariableArray (evalImpl a p fuel ty) (wsVal p) m c = .ok v c') :
+    c'.off = c.off + wsVal p v ∧ c'.data = c.data.drop (wsVal p v) := by
+  have := readVariableArray_advBy p (fun c v c' hh => (eval_consumed a p hp fuel).1 ty c v c' hh) h
+  exact ⟨this.2.1, this.2.2.1⟩
+
+/-- the K1 sites are exactly where the hypothesis fails: a struct with a bracket-less opaque field is not `SizeExact` -/
+theorem C02_defect_bare_opaque :
+    (Plans.mk [⟨"s", true, .struct [.plain "o" (.one .opaque)]⟩] [⟨"s", true, .struct [⟨"o", true, false⟩]⟩]).SizeExact = false := by
+  decide
+
+/-- … and there the size is short by exactly the 4-byte length prefix (the value `opaque o;` = 1 byte: 8 on the wire, 4 reported) -/
+theorem C02_defect_bare_opaque_witness :
+    wsVal (Plans.mk [] [⟨"s", true, .struct [⟨"o", true, false⟩]⟩]) (.struct "s" ["o"] (.cons (.bytes 4 [7]) .nil)) = 4 ∧
+    (XVal.struct (.cons (.varOpaque [7]) .nil)).enc.length = 8 := by
+  decide
+
+/-- non-vacuity of the hypothesis -/
+example : (Plans.mk [⟨"s", true, .struct [.plain "o" (.varBytes none), .plain "n" (.one (.prim .u32))]⟩]
+    [⟨"s", true, .struct [⟨"o", true, true⟩, ⟨"n", false, false⟩]⟩]).SizeExact' = true := by decide
 
 end Fx.C02
